@@ -638,3 +638,30 @@ func constString(v ssa.Value) (string, bool) {
 	}
 	return constant.StringVal(c.Value), true
 }
+
+// akeyOf: abstract key identity (see builtin akey).
+func (x *Exec) akeyOf(s *State, hp *Heap, v Value) string {
+	x.declareFun("akey_generic", []string{sInt, sInt}, sInt)
+	gen := app("akey_generic", v.F[0].S, v.F[1].S)
+	kt := x.v.keyPtrType()
+	if kt == nil {
+		return gen
+	}
+	tag := x.v.tagOf(kt)
+	// contents of the *Key (read in the given heap; keys are immutable once built)
+	kp := Value{T: kt, S: v.F[1].S}
+	env := &Env{x: x, s: s, hp: hp, old: hp, allocOld: s.alloc, vars: map[string]Value{"k": kp}, pkg: x.v.typesPkg("github.com/jrhy/s3db")}
+	sv := env.field(kp, "SQLiteValue")
+	typ := env.field(sv, "Type").S
+	in := env.field(sv, "Int").S
+	re := env.field(sv, "Real").S
+	tx := env.field(sv, "Text").S
+	bl := x.bytesStr(s, hp, env.field(sv, "Blob"))
+	x.declareFun("akey_sqlite", []string{sInt, sInt, sFP, sStr, sStr}, sInt)
+	// only the field selected by the storage class matters
+	in = ite(eq(typ, "1"), in, "0")
+	re = ite(eq(typ, "2"), re, "(_ +zero 11 53)")
+	tx = ite(eq(typ, "3"), tx, "\"\"")
+	bl = ite(eq(typ, "4"), bl, "\"\"")
+	return ite(eq(v.F[0].S, tag), app("akey_sqlite", typ, in, re, tx, bl), gen)
+}
